@@ -1,3 +1,4 @@
+CONSTANT Rich = FALSE
 SPECIFICATION TraceSpec
 POSTCONDITION Report
 CHECK_DEADLOCK FALSE
